@@ -763,3 +763,25 @@ Lemma addr_of_spec o H (H_len : forall x, length (H x) = 32%nat) Q :
 Proof.
   unfold addr_of, spec_address, pubkey_bytes, lastn. rewrite H_len, !be_fixed_32_spec. reflexivity.
 Qed.
+
+(* signing never panics (the 65-byte compact signature is always unpacked within bounds) *)
+Lemma SignDirect_total o nonce fuel d msg : SignDirect o nonce fuel d msg <> Panic.
+Proof.
+  unfold SignDirect, SignCompact.
+  destruct (ecdsa_sign_loop o fuel (nonce d msg) 0 d (hash_to_z msg)) as [e|]; [|discriminate].
+  cbn [bind index nth_error].
+  set (code := 27 + (if es_ovf e then 2 else 0) + (if es_odd e then 1 else 0)).
+  set (rb := be_fixed 32 (es_r e)). set (sb := be_fixed 32 (es_s e)).
+  assert (Lr : length rb = 32%nat) by apply be_fixed_length.
+  assert (Ls : length sb = 32%nat) by apply be_fixed_length.
+  assert (S1 : slice (n2b (Z.to_N code) :: rb ++ sb) 1 33 = Ok rb).
+  { unfold slice. cbn [length]. rewrite app_length, Lr, Ls. cbn [Nat.leb Nat.add andb].
+    change (skipn 1 (n2b (Z.to_N code) :: rb ++ sb)) with (rb ++ sb).
+    change (33 - 1)%nat with 32%nat. rewrite (firstn_app_len 32) by exact Lr. reflexivity. }
+  assert (S2 : slice (n2b (Z.to_N code) :: rb ++ sb) 33 65 = Ok sb).
+  { unfold slice. cbn [length]. rewrite app_length, Lr, Ls. cbn [Nat.leb Nat.add andb].
+    change (skipn 33 (n2b (Z.to_N code) :: rb ++ sb)) with (skipn 32 (rb ++ sb)).
+    change (65 - 33)%nat with 32%nat. rewrite (skipn_app_len 32) by exact Lr.
+    rewrite (firstn_len 32) by exact Ls. reflexivity. }
+  rewrite S1, S2. cbn [bind]. discriminate.
+Qed.
